@@ -86,6 +86,7 @@ class Facts:
         # helpers the reference tree does not have are inlined into their callers (see rules/astnorm.py)
         self.inlined_sites = 0
         self.new_consts = {}
+        self.renamed = {}
         if os.environ.get("VERIF_NO_ASTNORM") != "1":
             kp = os.path.join(os.path.dirname(os.path.dirname(os.path.abspath(__file__))), "tables", "known_fns.json")
             if os.path.exists(kp):
@@ -93,6 +94,23 @@ class Facts:
                 with open(kp) as f:
                     kd = json.load(f)
                 known = set(kd["paths"])
+                # a known function that is gone while exactly one unknown function of the same parent (impl / module)
+                # and the same number of parameters appeared is that function under a new name: anchors written
+                # against the old name keep finding it, and it is not treated as an extracted helper
+                cur = {}
+                for b in self.bodies:
+                    if b.dk in ("Fn", "AssocFn"):
+                        cur.setdefault(canon_generics(b.path), []).append(b)
+                known_c = set(canon_generics(k) for k in known)
+                missing = [k for k in sorted(known_c) if k not in cur]
+                fresh = [k for k in sorted(cur) if k not in known_c]
+                self.renamed = {}
+                for m in missing:
+                    parent = m.rsplit("::", 1)[0]
+                    cands = [f for f in fresh if f.rsplit("::", 1)[0] == parent and len(cur[f]) == 1]
+                    if len(cands) == 1:
+                        self.renamed[m] = cur[cands[0]][0]
+                known = known | set(b.path for b in self.renamed.values())
                 kc = set(canon_generics(c) for c in kd.get("consts", []))
                 # constants the reference tree does not have (introduced by an edit): expanded wherever they are used
                 self.new_consts = {b.path: b for b in self.bodies if b.dk in ("Const", "AssocConst") and canon_generics(b.path) not in kc}
@@ -122,6 +140,17 @@ class Facts:
             cands.append(b)
             if rx.search(b.path):
                 out.append(b)
+        if not out and getattr(self, "renamed", None):
+            # the anchor names a function that now lives under another name (see __init__)
+            try:
+                rxr = re.compile(canon_generics(regex))
+                for old_path, b in self.renamed.items():
+                    if rxr.search(old_path) and (not dk or b.dk == dk) and (not file or b.file.endswith(file)):
+                        out.append(b)
+            except re.error:
+                pass
+            if out:
+                return out
         if not out:
             try:
                 rx2 = re.compile(canon_generics(regex))
